@@ -44,8 +44,10 @@ InitHoles == Init /\ svc \in SvcSetsHoles /\ AllStarted
 (* quick tier: the shapes in which every module takes part in a dependency; without a fault    *)
 (* all wrappers or all but one started, with a fault all wrappers started                      *)
 InitQuick == Init /\ svc = Mod /\ Connected(deps) /\ IF NoFault THEN AllStarted \/ AllButOne ELSE AllStarted
-(* liveness config *)
+InitAllStarted == Init /\ svc = Mod /\ AllStarted
+(* liveness configs *)
 LiveSpec == InitMain /\ [][Next]_vars /\ Fairness
+LiveSpecAllStarted == InitAllStarted /\ [][Next]_vars /\ Fairness
 (* every subset of wrappers started *)
 InitAny   == Init /\ svc = Mod
 =============================================================================
